@@ -422,7 +422,8 @@ fn linearize_extreme(
                 break;
             }
         }
-        if !dominated {
+        // an operand whose evaluation may fail is never pruned: lowering it is what reports the error
+        if !dominated || exps[index].may_be_undefined() {
             retained_indices.push(index);
         }
     }
